@@ -58,12 +58,6 @@ Section Sound.
     induction reqs as [|r rest IH]; intros used free outs H Hnd Hdisj.
     - simpl in H. inversion H; subst. simpl. repeat split; try constructor; intros i [].
     - cbn [engine] in H.
-      destruct (b && match free with [] => true | _ :: _ => false end) eqn:Ebrk.
-      + inversion H; subst outs. change (Unplaced :: map (fun _ : request => Unplaced) rest)
-          with (map (fun _ : request => Unplaced) (r :: rest)).
-        rewrite unplaced_placed, unplaced_fresh. repeat split; try constructor; try (intros i []).
-        * destruct r; exact I.
-        * apply unplaced_fits.
       + destruct r as [k| |].
         * cbn [andb] in H.
           destruct (match rg with Some (lo, hi) => (k <? lo) || (hi <? k) | None => false end); [discriminate|].
@@ -82,7 +76,12 @@ Section Sound.
              ++ intros i [<-|Hi]; [assumption|]. intros Hu. apply (N2 i Hi). right. assumption.
              ++ intros i Hi. apply N3 in Hi. apply removeN_in in Hi. tauto.
              ++ assumption.
-        * destruct free as [|f free']; [discriminate|].
+        * destruct free as [|f free'].
+          { destruct b; [|discriminate]. inversion H; subst outs.
+            change (Unplaced :: map (fun _ : request => Unplaced) rest) with (map (fun _ : request => Unplaced) (RFresh :: rest)).
+            rewrite unplaced_placed, unplaced_fresh. repeat split; try constructor; try (intros i []).
+            - exact I.
+            - apply unplaced_fits. }
           inv_bind H as o Ho Hk. inversion Hk; subst outs.
           inversion Hnd as [|? ? Hf Hnd']; subst.
           destruct (IH (f :: used) free' o Ho Hnd') as (F & N1 & N2 & N3 & N4).
@@ -140,12 +139,10 @@ Proof.
   induction reqs as [|r rest IH]; intros used free outs Hnc H.
   - simpl in H. inversion H; subst. exists 0%nat. reflexivity.
   - simpl in Hnc. apply andb_true_iff in Hnc as [Hr Hnc]. cbn [engine] in H.
-    destruct (b && match free with [] => true | _ :: _ => false end) eqn:Ebrk.
-    + inversion H; subst outs. exists 0%nat.
-      destruct r; simpl; try discriminate;
-        (clear; induction rest as [|r0 rest IHr]; [reflexivity | destruct r0; simpl; auto]).
     + destruct r as [k| |]; [discriminate| |].
-      * destruct free as [|f free']; [discriminate|].
+      * destruct free as [|f free'].
+        { destruct b; [|discriminate]. inversion H; subst outs. exists 0%nat. simpl.
+          clear. induction rest as [|r0 rest IHr]; [reflexivity | destruct r0; simpl; auto]. }
         inv_bind H as o Ho Hk. inversion Hk; subst outs.
         destruct (IH _ _ _ Hnc Ho) as [n Hn]. exists (S n). simpl. rewrite Hn. reflexivity.
       * inv_bind H as o Ho Hk. inversion Hk; subst outs.
@@ -202,7 +199,7 @@ Lemma engine_used_ext b c rg : forall reqs used used' free,
   (forall x, In x used <-> In x used') -> engine b c rg reqs used free = engine b c rg reqs used' free.
 Proof.
   induction reqs as [|r rest IH]; intros used used' free Heq; [reflexivity|].
-  cbn [engine]. destruct (b && match free with [] => true | _ :: _ => false end); [reflexivity|].
+  cbn [engine].
   destruct r as [k| |].
   - destruct (match rg with Some (lo, hi) => (k <? lo) || (hi <? k) | None => false end); [reflexivity|].
     assert (memN k used = memN k used') as ->.
@@ -218,6 +215,69 @@ Qed.
 
 Definition count_fresh (reqs : list request) : nat :=
   length (filter (fun r => match r with RFresh => true | _ => false end) reqs).
+
+(* any mode: distinct, unused, in-range carried indices at the front are all placed, whatever is left of the free list *)
+Definition in_range (rg : option (N * N)) (k : N) : bool :=
+  match rg with Some (lo, hi) => negb ((k <? lo) || (hi <? k)) | None => true end.
+
+Lemma engine_carried_prefix_gen b rg : forall ks rest used free,
+  NoDup ks -> (forall k, In k ks -> ~ In k used) -> (forall k, In k ks -> in_range rg k = true) ->
+  engine b true rg (map RCarry ks ++ rest) used free =
+  (do o <- engine b true rg rest (rev ks ++ used) (remove_all ks free); Ok (map Placed ks ++ o)).
+Proof.
+  induction ks as [|k ks IH]; intros rest used free Hnd Hun Hrg.
+  - simpl. destruct (engine b true rg rest used free); reflexivity.
+  - inversion Hnd as [|? ? Hk Hnd']; subst. cbn [map app engine].
+    assert ((match rg with Some (lo, hi) => (k <? lo) || (hi <? k) | None => false end) = false) as ->.
+    { specialize (Hrg k (or_introl eq_refl)). unfold in_range in Hrg. destruct rg as [[lo hi]|]; [|reflexivity].
+      apply negb_true_iff in Hrg. exact Hrg. }
+    assert (memN k used = false) as -> by (apply memN_false; apply Hun; left; reflexivity).
+    cbn [andb]. rewrite IH; auto.
+    + simpl. rewrite <- app_assoc. simpl.
+      destruct (engine b true rg rest (rev ks ++ k :: used) (remove_all ks (removeN k free))); reflexivity.
+    + intros k' Hk' [<-|Hu]; [contradiction | eapply Hun; [right; exact Hk' | exact Hu]].
+    + intros k' Hk'. apply Hrg. right. assumption.
+Qed.
+
+(* every table, every mode (raise when full / leave unplaced when full): two iteration orders of the same objects -
+   distinct unused in-range carried indices, then n index-less objects - give the same verdict (both Ok or both Raise),
+   the same list of new ids, the same set of occupied slots, and the same number of objects left unplaced *)
+Theorem order_independent_gen b rg ks ks' n used free :
+  Permutation ks ks' -> NoDup ks -> (forall k, In k ks -> ~ In k used) -> (forall k, In k ks -> in_range rg k = true) ->
+  match engine b true rg (map RCarry ks ++ repeat RFresh n) used free,
+        engine b true rg (map RCarry ks' ++ repeat RFresh n) used free with
+  | Ok o, Ok o' =>
+      fresh_ids (map RCarry ks ++ repeat RFresh n) o = fresh_ids (map RCarry ks' ++ repeat RFresh n) o' /\
+      Permutation (placed_ids o) (placed_ids o') /\
+      skipn (length ks) o = skipn (length ks') o'
+  | Raise _, Raise _ => True
+  | _, _ => False
+  end.
+Proof.
+  intros P Hnd Hun Hrg.
+  assert (NoDup ks') as Hnd' by (eapply Permutation_NoDup; eauto).
+  assert (forall k, In k ks' -> ~ In k used) as Hun'
+    by (intros k Hk; apply Hun; eapply Permutation_in; [apply Permutation_sym; eauto | assumption]).
+  assert (forall k, In k ks' -> in_range rg k = true) as Hrg'
+    by (intros k Hk; apply Hrg; eapply Permutation_in; [apply Permutation_sym; eauto | assumption]).
+  rewrite (engine_carried_prefix_gen b rg ks) by auto.
+  rewrite (engine_carried_prefix_gen b rg ks') by auto.
+  rewrite (remove_all_perm ks ks' free P).
+  rewrite (engine_used_ext b true rg (repeat RFresh n) (rev ks ++ used) (rev ks' ++ used)).
+  2:{ intros x. rewrite !in_app_iff, <- !in_rev. split; intros [H|H]; auto; left;
+      [eapply Permutation_in; eauto | eapply Permutation_in; [apply Permutation_sym; eauto | assumption]]. }
+  destruct (engine b true rg (repeat RFresh n) (rev ks' ++ used) (remove_all ks' free)) as [o|e]; simpl; [|exact I].
+  split; [|split].
+  - assert (forall l (o0 : list outcome) r, fresh_ids (map RCarry l ++ r) (map Placed l ++ o0) = fresh_ids r o0) as F
+      by (induction l as [|x l IHl]; intros; simpl; auto).
+    rewrite !F. reflexivity.
+  - assert (forall l (o0 : list outcome), placed_ids (map Placed l ++ o0) = l ++ placed_ids o0) as G
+      by (induction l as [|x l IHl]; intros; simpl; [reflexivity | rewrite IHl; reflexivity]).
+    rewrite !G. apply Permutation_app_tail. assumption.
+  - assert (forall l (o0 : list outcome), skipn (length l) (map Placed l ++ o0) = o0) as S
+      by (induction l as [|x l IHl]; intros; simpl; auto).
+    rewrite !S. reflexivity.
+Qed.
 
 (* the UPRP allocator (raise mode): for two iteration orders of the same requests with distinct, unused
    carried indices, both runs succeed or both raise, every carried object keeps its index in both, and
@@ -263,10 +323,6 @@ Proof.
   induction reqs as [|r rest IH]; intros used free outs H Hnd.
   - simpl in H. inversion H; subst. simpl. split; [intros i [] | constructor].
   - cbn [engine] in H.
-    destruct (b && match free with [] => true | _ :: _ => false end) eqn:Ebrk.
-    + inversion H; subst outs. change (Unplaced :: map (fun _ : request => Unplaced) rest)
-        with (map (fun _ : request => Unplaced) (r :: rest)).
-      rewrite unplaced_fresh. split; [intros i [] | constructor].
     + destruct r as [k| |].
       * destruct (match rg with Some (lo, hi) => (k <? lo) || (hi <? k) | None => false end); [discriminate|].
         destruct (c && memN k used).
@@ -274,7 +330,10 @@ Proof.
         -- inv_bind H as o Ho Hk. inversion Hk; subst outs. simpl.
            destruct (IH _ _ _ Ho (removeN_nodup k free Hnd)) as [A B]. split; [|assumption].
            intros i Hi. apply A in Hi. apply removeN_in in Hi. tauto.
-      * destruct free as [|f free']; [discriminate|].
+      * destruct free as [|f free'].
+        { destruct b; [|discriminate]. inversion H; subst outs.
+          change (Unplaced :: map (fun _ : request => Unplaced) rest) with (map (fun _ : request => Unplaced) (RFresh :: rest)).
+          rewrite unplaced_fresh. split; [intros i [] | constructor]. }
         inv_bind H as o Ho Hk. inversion Hk; subst outs. inversion Hnd as [|? ? Hf Hnd']; subst.
         destruct (IH _ _ _ Ho Hnd') as [A B]. simpl. split.
         -- intros i [<-|Hi]; [left; reflexivity | right; apply A; assumption].
@@ -313,7 +372,7 @@ Proof.
   induction reqs as [|r rest IH]; intros used free Hrg H0; [simpl; eauto|].
   assert (forall k, In (RCarry k) rest -> match rg with Some (lo, hi) => (k <? lo) || (hi <? k) | None => false end = false) as Hrg'
     by (intros k Hk; apply Hrg; right; assumption).
-  cbn [engine]. destruct (b && match free with [] => true | _ :: _ => false end); [eauto|].
+  cbn [engine].
   rewrite count_fresh_cons in H0. destruct r as [k| |]; simpl in H0; try discriminate.
   - rewrite (Hrg k (or_introl eq_refl)). destruct (c && memN k used).
     + destruct (IH used free Hrg' H0) as [o ->]. simpl. eauto.
